@@ -184,6 +184,10 @@ def select_cases(nw=2):
                            name="sel_builtin_filter_timeout", nw=nw, maxtick=1))
     out.append(select_case([recv(acc=[I(9)]), recv(("tup",), body="builtin"), recv()], [I(1), T(I(3), I(4))],
                            name="sel_filter_builtin_type", nw=nw))
+    # a timeout far beyond 64 bits (a "never" sentinel) written BEFORE sources that are ready: it must not fire
+    # (seeded change C05-3: a shared conversion helper turned durations that do not fit in 64 bits into 0)
+    out.append(select_case([tmo_huge(), aw(1)], [], name="sel_huge_timeout_await", nw=nw))
+    out.append(select_case([tmo_huge(), recv(acc=[I(2)]), recv()], [I(1)], name="sel_huge_timeout_recv", nw=nw))
     # failing await target
     out.append(select_case([aw(3), recv()], [], name="sel_await_failing", nw=nw))
     out.append(select_case([recv(), aw(3)], [I(1)], name="sel_recv_before_failing", nw=nw))
@@ -245,7 +249,8 @@ def all_families(nws=(1, 2, 3)):
         out += failure_cases(nw)
         out += [request_reply(nw, 1), request_reply(nw, 2), message_during_spawn(nw), send_to_finished(nw), filter_fails(nw),
                 abandoned_await(nw), abandoned_await_msg(nw), fail_multi_worker_select(nw), fail_already_failed_multi(nw),
-                shared_target(nw), shared_target(nw, True), shared_failing_target(nw), await_window(nw), burst(40, nw), reawait(nw, True), reawait(nw, False)]
+                shared_target(nw), shared_target(nw, True), shared_failing_target(nw), await_window(nw),
+                fail_during_filter_effect(nw, True), fail_during_filter_effect(nw, False), burst(40, nw), reawait(nw, True), reawait(nw, False)]
         out += heap_cases(nw)
         out += [bin_final_send(nw), bin_final_send_tuple(nw)]
         out += session_cases(nw)
@@ -385,6 +390,23 @@ def resource_cases(nw=2):
                   [select(1, recv(("res",)), tmo(1)), ret(OKE)],
                   [select(2, tmo(2)), ropen(3), send(1, r(3)), ret(OKE)]], nw=nw, io=True, maxtick=3)
     out.append(meta(s, False, True, ["C14"]))
+    # TWO handles move in one transfer: captured by one spawn / sent in one message (seeded change C14-3: the
+    # ownership walk stopped at the first handle it found, every further one kept its old owner)
+    s = scenario("res_two_captured_w%d" % nw,
+                 [[spawn(1, 2), select(2, aw(1)), ret(r(2))],
+                  [ropen(1), ropen(2), spawn(3, 3, r(1), r(2)), select(4, aw(3)), ret(r(4))],
+                  [ruse(3, 1), ruse(4, 2), ret(t(r(3), r(4)))]], nw=nw, io=True)
+    out.append(meta(s, True, True, ["C14"]))
+    s = scenario("res_two_in_message_w%d" % nw,
+                 [[spawn(1, 2), spawn(2, 3, r(1)), select(3, aw(1)), select(4, aw(2)), ret(r(3))],
+                  [select(1, recv(("rpair",))), let(2, fld(1, 0)), let(3, fld(1, 1)), ruse(4, 2), ruse(5, 3), ret(t(r(4), r(5)))],
+                  [ropen(2), ropen(3), send(1, t(r(2), r(3))), ret(OKE)]], nw=nw, io=True)
+    out.append(meta(s, True, True, ["C14"]))
+    s = scenario("res_capture_and_argument_w%d" % nw,
+                 [[spawn(1, 2), select(2, aw(1)), ret(r(2))],
+                  [ropen(1), ropen(2), let(5, t(c(I(1)), r(2))), spawn(3, 3, r(1), r(5)), select(4, aw(3)), ret(r(4))],
+                  [let(6, fld(2, 1)), ruse(3, 6), ruse(4, 1), ret(t(r(3), r(4)))]], nw=nw, io=True)
+    out.append(meta(s, True, True, ["C14"]))
     # the handle is captured by a spawned process (ownership moves at the spawn), nested in a tuple
     s = scenario("res_captured_w%d" % nw,
                  [[spawn(1, 2), select(2, aw(1)), ret(r(2))],
@@ -472,7 +494,7 @@ def filter_fails(nw=2):
 # ---------------------------------------------------------------- C05: seeded cross product of select shapes
 SEL_POOL = [lambda: aw(1), lambda: aw(2), lambda: aw(3), lambda: recv(), lambda: recv(acc=[I(2)]),
             lambda: recv(("tup",)), lambda: recv(("tup",), body="builtin"), lambda: tmo(0), lambda: tmo(2),
-            lambda: tmo(1), lambda: recv(acc=[I(1), I(2)]), lambda: recv(("int", "tup")), lambda: recv(("tup",), acc=[T(I(3), I(4))])]
+            lambda: tmo(1), lambda: tmo_huge(), lambda: recv(acc=[I(1), I(2)]), lambda: recv(("int", "tup")), lambda: recv(("tup",), acc=[T(I(3), I(4))])]
 SEL_PRELOADS = [[], [I(1)], [I(2)], [I(1), I(2)], [T(I(3), I(4)), I(2)], [I(1), T(I(3), I(4)), I(2)]]
 
 
@@ -493,7 +515,7 @@ def select_product(seed, n, nw=2):
         for s_ in srcs:   # a builtin receive source is type-only
             if s_.get("body") == "builtin":
                 s_["filt"] = False
-        mt = max([s_["d"] for s_ in srcs if s_["k"] == "timeout"] + [0])
+        mt = max([s_["d"] for s_ in srcs if s_["k"] == "timeout" and not s_.get("huge")] + [0])
         name = "selx_%s_p%d_a%d_w%d" % ("".join(str(i) for i in idx), pre, len(after), nw)
         sc = select_case(srcs, SEL_PRELOADS[pre], extra_after=list(after), nw=nw, name=name, maxtick=mt)
         # the first eight of a sample are also model-checked exhaustively in the quick tier; the rest only there
@@ -809,6 +831,25 @@ def await_window(nw=2):
                [select(1, recv()), ret(r(1))],
                [select(1, recv(("bin",))), ret(OKE)]]
     return meta(scenario("await_window_w%d" % nw, scripts, nw=nw, maxpid=4), True, False, ["C04", "C05", "C03"], large=True)
+
+
+def fail_during_filter_effect(nw=2, deferred=True):
+    # a select lists an awaited process and a receive source whose FILTER calls an effect builtin; the awaited
+    # process fails while the effect is in flight, so the awaiter is failed while parked in `effecting` inside
+    # the filter, and the completion arrives for a process without frames (seeded change C15-3: the completion
+    # handler returned FrameUnderflow, which ends the worker's loop).  Effects issued from inside a filter body
+    # are outside the mechanism model: these runs are judged by the monitor only (no_l2).
+    scripts = [[spawn(1, 2), spawn(2, 3, r(1)), send(2, c(I(5))), spawn(3, 4), select(4, aw(3)), select(5, aw(2), tmo(3)),
+                ret(r(4))],
+               [select(1, tmo(1)), fail()],
+               [select(2, aw(1), recv(("int",), body="effect")), ret(r(2))],
+               [select(1, tmo(2)), ret(c(I(7)))]]
+    s = scenario("fail_during_filter_effect%s_w%d" % ("_deferred" if deferred else "", nw), scripts, nw=nw, maxtick=4,
+                 io=True, maxpid=4)
+    if deferred:
+        s["deferred_io"] = True
+        s["iomodes"] = ["later"]
+    return meta(s, False, False, ["C15"], large=True, no_mc=True, no_l2=True)
 
 
 def shared_failing_target(nw=2):
